@@ -21,7 +21,7 @@ RULE = ("cases = (script, silent in {True, False}, mode): supported statement mi
         "skipped in both settings; corpus scripts for the silent/loud agreement; unknown output_mode strings (near-misses such as "
         "'SQL', 'hql ', 'postgresql', '') . Non-trivial = a script containing at least one unsupported statement or an unknown mode; "
         "distinct = distinct (script, mode)."
-        " Added after seeded defects: stray-semicolon family, unterminated ignored lines at every gap, the silent/loud pair through parse_from_file(parser_settings).") % len(GS.all_kinds())
+        " Added after seeded defects: stray-semicolon family, unterminated ignored lines at every gap, the silent/loud pair through parse_from_file(parser_settings); silent=False combined with debug / normalize_names; valid modes must be named as whole words.") % len(GS.all_kinds())
 ASSUMPTIONS = ["'supported' = scripts of the modelled generators; 'unsupported' = the calibrated catalogue (each entry raises when loud and yields [] when silent on the pinned tree)",
                "lines starting with GO / USE / INSERT / GRANT / DELETE are documented as ignored by the pre-processor, so they raise in neither setting"]
 MIN_EVENTS = {"run_call": 500}
@@ -29,11 +29,11 @@ MIN_EVENTS = {"run_call": 500}
 UNKNOWN_MODES = ["SQL", "Hql", "hql ", " hql", "postgresql", "", "mssql2", "sqlserver", "big_query", "oracle\n", "snow-flake", "athena ", "sql;", "db2", "REDSHIFT", "spark", "json", "none", "MySQL"]
 
 
-def run(ddl, silent, **kw):
+def run(ddl, silent, _ctor=None, **kw):
     """('ok', result) | ('exc', type name, is SimpleDDLParserException, message)"""
     from simple_ddl_parser import DDLParser, SimpleDDLParserException
     try:
-        return ("ok", DDLParser(ddl, silent=silent).run(**kw))
+        return ("ok", DDLParser(ddl, silent=silent, **(_ctor or {})).run(**kw))
     except Exception as e:
         return ("exc", type(e).__name__, isinstance(e, SimpleDDLParserException), str(e)[:300])
 
@@ -112,6 +112,17 @@ def check_mixed(ctx, case):
             if extra and all(isinstance(e, dict) and set(e) == {"name", "value"} for e in extra) and [e for e in got if e in expected] == expected:
                 k = kf
         ctx.violation("silent_not_skipped_cleanly", dict(case, script=text), {"diffs": [(p, short(x, 120), short(y, 120)) for p, x, y in ddiff(got, expected)[:4]]}, kf=k)
+    # silent=False together with the other constructor flags is still silent=False
+    if ctx.obs["silent_loud_pairs"] % 4 == 0:
+        for extra in ({"debug": True}, {"normalize_names": True}, {"debug": True, "normalize_names": True}):
+            lx = run(text, False, extra, output_mode=mode)
+            ctx.evaluated()
+            ctx.obs["loud_with_other_flags"] += 1
+            same = lx[:3] == l[:3] if l[0] == "exc" else (lx[0] == "ok" and ("normalize_names" in extra or lx[1] == l[1]))
+            if not same:
+                ctx.violation("loud_setting_depends_on_other_flags", dict(case, script=text, ctor=dict(extra, silent=False)),
+                              {"flags": dict(extra, silent=False), "observed": short(lx[:2], 200), "silent_False_alone": short(l[:2], 200)})
+                break
     # loud
     must_raise = n_uns > 0 and not case.get("ignored_only")
     if must_raise:
@@ -152,7 +163,9 @@ def check_unknown_mode(ctx, case):
     elif not r[2]:
         ctx.violation("unknown_mode_wrong_exception", case, {"mode": case["mode"], "exception": r[1], "message": r[3]})
     else:
-        missing = [m for m in MODES if m not in r[3]]
+        import re
+        named = set(re.findall(r"\w+", r[3]))          # whole words: 'sql' is not named by 'mysql'
+        missing = [m for m in MODES if m not in named]
         if missing:
             ctx.violation("unknown_mode_message_lacks_modes", case, {"mode": case["mode"], "message": r[3], "not_named": missing})
 
